@@ -2,6 +2,7 @@
 import json, os, shutil, subprocess
 from harness import tla
 from harness.checks import treefam as F
+from harness.checks import iterfam as I
 
 
 def _big_stack():
@@ -44,7 +45,8 @@ def main(run):
                 'x traversal style x size x callback position x mutation and computes the allowed outcome with guarded reads; each is replayed '
                 'through 6 recursive / 1 agenda entry points in a child process under the normal build and under the ASan+UBSan build; '
                 '(iii) 44 API functions x 27 argument-type confusions in a child process under both builds; a crash, a sanitizer report or an '
-                'outcome outside the allowed set is a violation; non-trivial = mutation cases whose mutation is reached by a later read')
+                'outcome outside the allowed set is a violation; (iv) IterM programs (iterator suspended while its containers are mutated) under '
+                'the sanitizer build; non-trivial = mutation cases whose mutation is reached by a later read')
     # (i) depth
     run.evaluations += F.drive_and_judge(run, 'depth', [], ['depth'])
     # (ii) mutation under traversal
@@ -100,6 +102,13 @@ def main(run):
                                   f'[{tag}] {rr["name"]}: {rr["res"]} (an internal error instead of a Python-level exception)')
             run.evaluations += len(res)
             run.extra[f'{part}_cases_{tag}'] = len(res)
+    # (iv) containers mutated BETWEEN two __next__ calls of a suspended iterator (IterM programs), sanitizer build: a crash or
+    # a sanitizer report kills the driver (= violation); results are judged by IterSem as in C03
+    progs = I.exhaustive_programs(run, 'mut', 3 if quick else 4, cap=2500 if quick else 40000, seed=run.seed) \
+        + I.random_programs(600 if quick else 8000, 40, run.seed + 9)
+    n = I.replay_and_judge(run, 'iter-asan', progs, asan=True)
+    run.evaluations += n
+    run.extra['iterator_programs_asan'] = n
     shutil.rmtree(wd, ignore_errors=True)
     run.sample({'mutation_case': cases[0] if cases else None})
     run.exhaustive = True
